@@ -11,8 +11,8 @@ OPN = ["PERM", "ADD", "UPDATE", "GET", "SUB", "RECV", "DROP", "PROVIDE", "PROVDO
        "CLEANUP", "SHUTDOWN", "TICK", "DUMP", "?15", "?16", "?17", "?18", "?19", "V1GET", "V1SET", "V2GET", "V2GETS",
        "V2PUB", "V2ACT", "V2BATCH", "V2META", "SDVGET", "SDVSET", "SDVUPD", "SDVREG", "SDVMETA", "V1SUB", "V2SUB"]
 V1SUB, V2SUB = 33, 34
-OPN += ["?%d" % k for k in range(len(OPN), 60)] + ["SPROV", "SPUB", "V1STR", "SDVSTR"]
-SPROV, SPUB, V1STR, SDVSTR = 60, 61, 62, 63
+OPN += ["?%d" % k for k in range(len(OPN), 60)] + ["SPROV", "SPUB", "V1STR", "SDVSTR", "LPROV"]
+SPROV, SPUB, V1STR, SDVSTR, LPROV = 60, 61, 62, 63, 64
 V1GET, V1SET, V2GET, V2GETS, V2PUB, V2ACT, V2BATCH, V2META, SDVGET, SDVSET, SDVUPD, SDVREG, SDVMETA = range(20, 33)
 
 PATHS = ["Vehicle.Speed", "Vehicle.SpeedLimit", "Vehicle.Speed2", "Vehicle.Cabin.Door.Row1.Left",
@@ -625,7 +625,7 @@ def dec_opt(t, i):
 def parse_op(l):
     op = l[0]
     d = {"op": op, "name": OPN[op] if 0 <= op < len(OPN) else "?"}
-    if 20 <= op <= 34 or op in (60, 61, 62, 63):
+    if 20 <= op <= 34 or op in (60, 61, 62, 63, 64):
         d["p"] = l[1] if len(l) > 1 else -1
         d["raw"] = l
     try:
@@ -819,7 +819,7 @@ def show_api(l):
                 s_, i = _sig(l, i)
                 out.append(s_)
             return "buffer_size=%d [%s]" % (l[2], ", ".join(out))
-        if op == SPROV:
+        if op in (SPROV, LPROV):
             out, i = [], 3
             for _ in range(l[2]):
                 s_, i = _sig(l, i)
@@ -1287,7 +1287,7 @@ def normalize(d, o, byname, meta):
                                  "min": None, "max": None, "allowed": None}, [[0, sid]]))
             else:
                 res.append(({"name": "RESYNC", "op": -1}, [[0]]))
-        elif op == SPROV:
+        elif op in (SPROV, LPROV):
             # an accepted claim through the provider stream is the core claim of the ids, then the resolved paths
             if first[0] != 0:
                 return []
@@ -1629,7 +1629,7 @@ def c19_check(d, o, ctx):
         elif name == "PROVIDE" and "raw" not in d:
             if first[:2] == [1, 8]:
                 fails += ctx.claimed_cause(d["ids"], "PROVIDE %s" % d["ids"])
-        elif "raw" in d and d["raw"][0] == SPROV:
+        elif "raw" in d and d["raw"][0] in (SPROV, LPROV):
             l = d["raw"]
             if first[:2] == [1, 6]:
                 ids, i, ok = [], 3, True
@@ -1895,6 +1895,7 @@ def monitor(lines, out, props):
     nprov = 0
     next_id = 0
     pend = None      # (op index, parsed op, output) of the last mutating op, judged at the next DUMP
+    pend_group = None
     _down = set()
     byname = {}
     rereg = []       # (id, dumped state before, principal) of re-registrations, judged at the next DUMP
@@ -2099,6 +2100,9 @@ def monitor(lines, out, props):
                           fails.append("C04-claim: p%d claimed %s without actuate permission" % (d["p"], paths[i]))
                   owners.append((o[0][1], list(d["ids"]), d["p"], True))
           elif name in ("ACTUATE", "BATCH"):
+              if pend is not None:
+                  # several actuations before the next dump (a provider that reads lazily): judged as a group
+                  pend_group = (pend_group or [pend]) + [(k, d, o[0])]
               pend = (k, d, o[0])
           elif name in ("CLEANUP", "SHUTDOWN"):
               for s_ in subs.values():
@@ -2137,6 +2141,9 @@ def monitor(lines, out, props):
                   if i in ack_t and et != "unknown" and got != et:
                       fails.append("C01-target: %s target is %s, last acknowledged is %s" % (paths.get(i), got, et))
               # C09: judge the last actuation against the inbox growth
+              if pend_group:
+                  fails += _judge_actuation_group(pend_group, last[1], provs)
+                  pend, pend_group = None, None
               if pend:
                   fails += _judge_actuation(pend, last[1], provs, owners, paths, meta, P, ticked, _down)
                   pend = None
@@ -2149,6 +2156,35 @@ def _tick_index(al):
         if d["name"] == "TICK":
             return k
     return 10**9
+
+
+def _judge_actuation_group(pends, before, after):
+    """several actuations between two dumps: what the providers received in between is exactly the requests of
+    the operations that succeeded, each once (a failed operation forwards nothing, so anything beyond is its)"""
+    fails = []
+    delivered = []
+    for h, calls in after.items():
+        old = before.get(h, [])
+        if calls[:len(old)] != old:
+            fails.append("C09-inbox: provider %d's earlier requests changed" % h)
+        delivered += [c for call in calls[len(old):] for c in call]
+    want = []
+    for (_k, d, res) in pends:
+        if res[0] == 0:
+            want += [(d["id"], d["value"])] if d["name"] == "ACTUATE" else list(d["changes"])
+    w = sorted((i, repr(v)) for i, v in want)
+    g = sorted((i, repr(v)) for i, v in delivered)
+    if w != g:
+        extra = [x for x in g if x not in w]
+        missing = [x for x in w if x not in g]
+        failed = [d["name"] for (_k, d, res) in pends if res[0] != 0]
+        if extra and failed:
+            fails.append("C09-all-or-nothing: %s failed, yet requests beyond those of the successful operations were forwarded: %s" % (
+                "/".join(failed), extra[:4]))
+        else:
+            fails.append("C09-exactly-once: %d operations, %d succeeded; not forwarded: %s; forwarded without a successful request: %s" % (
+                len(pends), len(pends) - len(failed), missing[:4], extra[:4]))
+    return fails
 
 
 def _judge_actuation(pend, before, after, owners, paths, meta, P, ticked, down=()):
